@@ -2,7 +2,9 @@
 """Applies each confirmed sub-agent change to /repo, runs the targeted property's quick check,
 and reverts (git checkout -- .).  Results -> /tmp/mut/results.json"""
 import json, os, subprocess, sys, glob
-def sh(cmd, cwd="/verif", timeout=3000):
+ROOT = os.environ.get("VERIF_ROOT", "/verif")
+def sh(cmd, cwd=None, timeout=3000):
+    cwd = cwd or ROOT
     p = subprocess.run(cmd, shell=True, cwd=cwd, stdout=subprocess.PIPE, stderr=subprocess.STDOUT, text=True, timeout=timeout)
     return p.returncode, p.stdout
 src = sys.argv[1] if len(sys.argv) > 1 else "/tmp/mut/out"
